@@ -4,6 +4,7 @@ import NgVerif.Model.Tiling
 import NgVerif.Model.Shard
 import NgVerif.Model.Pyramid
 import NgVerif.Model.Scales
+import NgVerif.Model.Slices
 import Mathlib.Tactic.Push
 import Mathlib.Tactic.NormNum
 import Mathlib.Tactic.Tauto
@@ -113,5 +114,33 @@ theorem scales_arith_eq_model (s L d maxd e sum af : Nat) (hs : 1 ≤ s) (hbase 
   · simp only [Src.chunkSizeOfExponent]
     have : (((e - (sum + 1) / 3 : Nat) : Int) + (af : Int)).toNat = (e - (sum + 1) / 3) + af := by omega
     rw [this]; push_cast; rfl
+
+/-- the slice-group arithmetic of `slices_to_raw_chunks` as written in the source: the number of groups is the
+    model's count; the group `[first, last)` in order is `cs·g … min(cs·(g+1), n)`; and for a reversed slice axis
+    the slice `filenames[first_slice : last_slice : -1]` starts at `n - 1 - first` and stops before `n - 1 - last`,
+    so its `k`-th element `first_slice - k` is the `k`-th file of the model's `groupFiles` -/
+theorem slices_arith_eq_model (n cs g k : Nat) (hn : 1 ≤ n) (hk : k < min (cs * (g + 1)) n - cs * g) :
+    Src.sliceGroups (input_size_2 := n) (input_chunk_size_2 := cs) = ((Tiling.count n cs : Nat) : Int) ∧
+    Src.sliceFirstInOrder (input_chunk_size_2 := cs) (slice_chunk_idx := g) = ((cs * g : Nat) : Int) ∧
+    Src.sliceLastInOrder (input_chunk_size_2 := cs) (slice_chunk_idx := g) (input_size_2 := n)
+      = ((min (cs * (g + 1)) n : Nat) : Int) ∧
+    Src.sliceFirstReversed (input_size_2 := n) (first_slice_in_order := ((cs * g : Nat) : Int)) - (k : Int)
+      = (((Slices.groupFiles n cs g true).getD k 0 : Nat) : Int) ∧
+    Src.sliceLastReversed (input_size_2 := n) (last_slice_in_order := ((min (cs * (g + 1)) n : Nat) : Int))
+      < Src.sliceFirstReversed (input_size_2 := n) (first_slice_in_order := ((cs * g : Nat) : Int)) - (k : Int) := by
+  have hlt : k < (Slices.groupFiles n cs g true).length := by simp [Slices.groupFiles]; exact hk
+  have hel : (Slices.groupFiles n cs g true).getD k 0 = n - 1 - (cs * g + k) := by
+    rw [List.getD_eq_getElem?_getD, List.getElem?_eq_getElem hlt]
+    simp [Slices.groupFiles]
+  have hmin := Nat.min_le_right (cs * (g + 1)) n
+  refine ⟨?_, ?_, ?_, ?_, ?_⟩
+  · simp only [Src.sliceGroups, Tiling.count]
+    push_cast
+    have : ((n - 1 : Nat) : Int) = (n : Int) - 1 := by omega
+    rw [this]
+  · simp only [Src.sliceFirstInOrder]; push_cast; rfl
+  · simp only [Src.sliceLastInOrder]; push_cast; rfl
+  · rw [hel]; simp only [Src.sliceFirstReversed]; omega
+  · simp only [Src.sliceLastReversed, Src.sliceFirstReversed]; omega
 
 end NgVerif.Source
